@@ -81,6 +81,59 @@ Theorem C24_tag_names_instance : forall (tag inst : bytes) (comp : option bytes)
 Proof. exact tag_names_instance. Qed.
 Print Assumptions C24_tag_names_instance.
 
+(* the daemon's other name validators, each equal on ALL byte strings to an explicit recogniser: app and provenance names
+   (dashed shape over [a-zA-Z0-9]); hook, plug, slot and interface names (one rule: lower-case letter first, dashed shape
+   over [a-z0-9]); aliases; snap-ids (exactly 32 alphanumerics); socket names and interface tags (the snap-name shape
+   without the length window); quota group names (exactly the snap names) *)
+Theorem C24_other_validators : forall s : bytes,
+  go_validate_app s = valid_app_name s /\ go_validate_provenance s = valid_app_name s /\
+  go_validate_hook s = valid_hook_name s /\ go_validate_plug s = valid_hook_name s /\
+  go_validate_slot s = valid_hook_name s /\ go_validate_interface s = valid_hook_name s /\
+  go_validate_alias s = valid_alias_name s /\ go_validate_snap_id s = valid_snap_id_name s /\
+  go_validate_socket s = valid_dashed_name s /\ go_validate_iface_tag s = valid_dashed_name s /\
+  go_validate_quota_group s = valid_snap_name s.
+Proof. exact other_validators_ref. Qed.
+Print Assumptions C24_other_validators.
+
+(* Go accepts iff C accepts, stated directly, for all byte strings *)
+Theorem C24_go_iff_c : forall s : bytes,
+  go_validate_snap s = sc_snap_name_validate s /\ go_validate_snap s = sun_validate_snap_name s /\
+  go_validate_instance s = sc_instance_name_validate s /\ go_validate_instance s = sun_validate_instance_name s /\
+  go_validate_component s = sc_snap_component_validate s.
+Proof. exact go_iff_c_names. Qed.
+Print Assumptions C24_go_iff_c.
+
+(* the recorded finding (generated-tag-longer-than-256) carved out exactly: a tag generated from names the daemon accepts
+   is accepted by snap-confine if and only if it is at most 256 bytes long *)
+Theorem C24_generated_tags_accepted_iff : forall (inst : bytes) (comp : option bytes) (is_hook : bool) (name : bytes),
+  go_validate_instance inst = true ->
+  comp_ok go_validate_snap comp = true ->
+  (if is_hook then go_validate_hook name else go_validate_app name) = true ->
+  (is_hook = false -> comp = None) ->
+  (sc_security_tag_validate (model_tag inst comp is_hook name) inst comp = true <->
+   (List.length (model_tag inst comp is_hook name) <= 256)%nat).
+Proof. exact generated_tags_accepted_iff. Qed.
+Print Assumptions C24_generated_tags_accepted_iff.
+
+(* which tags snap-confine's sc_is_hook_security_tag (it decides whether SNAP_COOKIE is overwritten) calls hook tags:
+   a non-component hook tag of an instance whose name starts with a lower-case letter is recognised ... *)
+Theorem C24_is_hook_tag_recognised : forall inst hook : bytes,
+  go_validate_instance inst = true -> go_validate_hook hook = true ->
+  match inst with c :: _ => c_lower c = true | [] => False end ->
+  sc_is_hook_security_tag (go_hook_tag inst None hook) = true.
+Proof. exact is_hook_tag_recognised. Qed.
+Print Assumptions C24_is_hook_tag_recognised.
+
+(* ... but not every hook tag is (CANDIDATE FINDING, not monitored — see notes/C24.md): snap.0ad.hook.x is a hook tag for
+   the daemon and is accepted by sc_security_tag_validate, yet sc_is_hook_security_tag rejects it (its expression wants a
+   letter first and knows no +component); the same holds for every component hook tag (NamingProofs.is_hook_component_example) *)
+Theorem C24_is_hook_tag_refuted :
+  exists tag inst comp hook,
+    go_parse_security_tag tag = Some (inst, comp, true, hook) /\ sc_security_tag_validate tag inst comp = true /\
+    sc_is_hook_security_tag tag = false.
+Proof. exact is_hook_tag_refuted. Qed.
+Print Assumptions C24_is_hook_tag_refuted.
+
 (* non-vacuity *)
 Example C24_names_nonvacuous :
   valid_snap_name (bs "hello-world") = true /\ valid_snap_name (bs "hello-") = false /\
@@ -92,4 +145,10 @@ Example C24_tags_nonvacuous :
   go_validate_hook (bs "install") = true /\
   model_tag (bs "foo_bar") (Some (bs "comp")) true (bs "install") = bs "snap.foo_bar+comp.hook.install" /\
   go_parse_security_tag (bs "snap.foo_bar+comp.hook.install") = Some (bs "foo_bar", Some (bs "comp"), true, bs "install").
+Proof. vm_compute. repeat split; reflexivity. Qed.
+
+Example C24_other_nonvacuous :
+  valid_app_name (bs "Foo-1") = true /\ valid_hook_name (bs "pre-refresh") = true /\ valid_hook_name (bs "0h") = false /\
+  valid_alias_name (bs "a.b_c-d") = true /\ valid_alias_name (bs ".a") = false /\
+  valid_snap_id_name (bs "abcdefghijklmnopqrstuvwxyz012345") = true /\ valid_dashed_name (bs "x") = true /\ valid_snap_name (bs "x") = false.
 Proof. vm_compute. repeat split; reflexivity. Qed.
